@@ -832,6 +832,25 @@ def sched_cases(ctx):
         else:
             c['chooser'] = {'kind': 'pct', 'seed': rng.randrange(1 << 30), 'depth': rng.randrange(1, 4), 'horizon': 300}
         out.append(c)
+    # targeted: a ranged download to a stream whose LATER part is re-delivered with different chunk
+    # boundaries (attempt 1: a short first chunk, then a retryable fault; attempt 2: full chunks) while
+    # the first part is slow -- the re-delivered data overlaps what is still withheld
+    for i in range(160 if ctx.thorough() else 40):
+        chunk = rng.choice([4, 5, 6])
+        io_ = rng.choice([3, 4])
+        nparts = rng.choice([2, 3])
+        size = chunk * nparts - rng.randrange(0, 2)
+        obj = bytes(rng.randrange(256) for _ in range(size))
+        victim = rng.randrange(1, nparts)
+        faults = [[] for _ in range(nparts)]
+        reads = [[] for _ in range(nparts)]
+        short = rng.randrange(1, io_)
+        faults[victim] = [['a', short, rng.choice(['timeout', 'incomplete', 'streaming'])]]
+        reads[victim] = [[short], []]
+        c = {'front': 'mgr', 'kind': 'stream', 'init': '', 'obj': obj.hex(), 'thr': chunk, 'chunk': chunk, 'io': io_,
+             'att': 3, 'mode': 'sched', 'shape': 'sched-redelivery', 'conc': rng.choice([2, 3]), 'faults': faults, 'reads': reads,
+             'chooser': {'kind': 'pct', 'seed': rng.randrange(1 << 30), 'depth': rng.randrange(1, 4), 'horizon': 200}}
+        out.append(c)
     return out
 
 
